@@ -23,6 +23,7 @@ import (
 	"encoding/json"
 	"fmt"
 	"os"
+	"regexp"
 	"strings"
 
 	"verifharness/pkg/hx"
@@ -136,8 +137,23 @@ func generalise(d string) string {
 	return "other"
 }
 
+var fieldInErr = regexp.MustCompile(`field '([^']+)'`)
+var bracketed = regexp.MustCompile(`\[[^\]]*\]`)
+var unableToRead = regexp.MustCompile(`unable to read ([a-z_]+)`)
+
+// readErrClass names what could not be read back: the object ("run", "event", "contact", "input", "trigger", …) and the
+// member the reader rejected, with indices and map keys dropped:
+// "call 1: ReadSession: unable to read run 0: unable to read run: field 'results[r2].category_localized' is not a valid
+// result category" -> "run:results[].category_localized"
 func readErrClass(e string) string {
-	// "call N: ReadSession: unable to read run 1: unable to find run …" -> the first two message segments
+	obj := "session"
+	if ms := unableToRead.FindAllStringSubmatch(e, -1); len(ms) > 0 {
+		obj = ms[len(ms)-1][1]
+	}
+	if m := fieldInErr.FindStringSubmatch(e); m != nil {
+		return obj + ":" + bracketed.ReplaceAllString(m[1], "[]")
+	}
+	// no field named: the first two message segments, digits dropped
 	parts := strings.Split(e, ": ")
 	if len(parts) >= 3 {
 		s := parts[1] + ":" + parts[2]
@@ -150,9 +166,9 @@ func readErrClass(e string) string {
 			}
 			return c
 		}, s)
-		return s
+		return obj + ":" + s
 	}
-	return "other"
+	return obj + ":other"
 }
 
 func main() {
